@@ -63,7 +63,6 @@ def addTable : Nat → Nat → Option AddImpl
   | 5, m => if m ≤ 5 then some .float else none
   | m, 5 => if m ≤ 5 then some .float else none
   | 1, 1 => some .po2
-  | 1, 4 => some .fixed           -- as written in the table (asymmetric with [4][1])
   | 1, m => if m ≤ 5 then some .po2Fixed else none
   | m, 1 => if m ≤ 5 then some .po2Fixed else none
   | a, b => if a ≤ 5 ∧ b ≤ 5 then some .fixed else none
